@@ -717,3 +717,49 @@ pub fn replay_c05(path: &str) {
     }
     rep.finish(json!({}));
 }
+
+
+// ---------------------------------------------------------------- beyond the listed properties: Display formats
+
+pub fn record_display(a: &Args) -> usize {
+    use flipdot_core::{Page, PageId};
+    let mut rng = StdRng::seed_from_u64(a.seed ^ 0xD15);
+    let mut out = TraceOut::new(&a.out, "DISPLAY", a.shards);
+    let text = |s: String| j::bytes(s.as_bytes());
+    for _ in 0..300 {
+        let len = rand_len(&mut rng).min(40);
+        let f = j::mk_frame(rng.r#gen(), rng.r#gen(), &rand_bytes(&mut rng, len));
+        out.emit(json!({"e": "show", "what": "frame", "f": j::frame(&f), "text": text(format!("{}", f))}));
+    }
+    let addrs = [0u16, 3, 0xFF, 0x100, 0xABCD, 0xFFFF];
+    for &x in &addrs {
+        let mut msgs = vec![
+            Message::Hello(Address(x)),
+            Message::QueryState(Address(x)),
+            Message::Goodbye(Address(x)),
+            Message::PixelsComplete(Address(x)),
+            Message::DataChunksSent(ChunkCount(x)),
+            Message::SendData(Offset(x), Data::try_new(rand_bytes(&mut rng, (x % 20) as usize)).unwrap()),
+            Message::Unknown(j::mk_frame(x, 9, &[1, 2, 255])),
+            Message::Unknown(j::mk_frame(x, 0xAB, &[])),
+        ];
+        for s in j::STATES {
+            msgs.push(Message::ReportState(Address(x), s));
+        }
+        for o in j::OPS {
+            msgs.push(Message::RequestOperation(Address(x), o));
+            msgs.push(Message::AckOperation(Address(x), o));
+        }
+        for m in msgs {
+            out.emit(json!({"e": "show", "what": "message", "m": j::msg(&m), "text": text(format!("{}", m))}));
+        }
+    }
+    for (w, h) in [(0u32, 0u32), (1, 1), (3, 2), (5, 7), (8, 8), (7, 9), (30, 7), (23, 10), (12, 17)] {
+        let mut p = Page::new(PageId(1), w, h);
+        for _ in 0..(w * h / 3) {
+            p.set_pixel(rng.gen_range(0..w), rng.gen_range(0..h), true);
+        }
+        out.emit(json!({"e": "show", "what": "page", "p": {"w": w, "h": h, "bytes": j::bytes(p.as_bytes())}, "text": text(format!("{}", p))}));
+    }
+    out.finish()
+}
